@@ -414,7 +414,7 @@ func highQCBlockView(w *cs.World, qc hotstuff.QuorumCert) (uint64, bool) {
 
 func TestC02Certificates(t *testing.T) {
 	maxN := 13
-	common.Check(t, id, "TestC02Certificates", 3000, 150000, func(rt *rapid.T) cs.Spec {
+	common.Check(t, id, "TestC02Certificates", 10000, 300000, func(rt *rapid.T) cs.Spec {
 		schemes := []string{"ecdsa", "eddsa", "ecdsa", "eddsa", "ecdsa", "eddsa", "ecdsa", "eddsa", "ecdsa", "bls12"}
 		if common.Tier() == "thorough" {
 			schemes = kit.Schemes
